@@ -103,30 +103,180 @@ def register(reg):
     GRIDPT = ["not isnan(%s) and not isnan(%s) and not isnan(%s) and not isnan(%s)" % (X1, Y1, X2, Y2),
               "0 <= %s and %s <= self.csize and 0 <= %s and %s <= self.csize" % (X1, X1, X2, X2),
               "0 <= %s and %s <= self.lsize and 0 <= %s and %s <= self.lsize" % (Y1, Y1, Y2, Y2)]
+    GH = "(0 <= S0 and S0 <= 1 and 0 <= A0 and A0 < self.csize and 0 <= B0 and B0 < self.lsize and %s)" % INCELL
     BETW = ["use mul_nonneg(S0, %s - %s)" % (X2, X1), "use mul_nonneg(S0, %s - %s)" % (X1, X2),
             "use mul_nonneg(1 - S0, %s - %s)" % (X2, X1), "use mul_nonneg(1 - S0, %s - %s)" % (X1, X2),
             "use mul_nonneg(S0, %s - %s)" % (Y2, Y1), "use mul_nonneg(S0, %s - %s)" % (Y1, Y2),
             "use mul_nonneg(1 - S0, %s - %s)" % (Y2, Y1), "use mul_nonneg(1 - S0, %s - %s)" % (Y1, Y2),
             "use distrib(1, S0, %s - %s)" % (X2, X1), "use distrib(1, S0, %s - %s)" % (Y2, Y1),
-            ("point-between-the-ends-x", "min(%s, %s) <= %s and %s <= max(%s, %s)" % (X1, X2, PX, PX, X1, X2)),
-            ("point-between-the-ends-y", "min(%s, %s) <= %s and %s <= max(%s, %s)" % (Y1, Y2, PY, PY, Y1, Y2)),
-            ("cell-in-the-scanned-range", "xmin <= A0 and A0 <= xmax and ymin <= B0 and B0 <= ymax"),
-            ("cell-satisfies-the-crossing-test", COND)]
+            ("point-between-the-ends-x", "implies(%s, min(%s, %s) <= %s and %s <= max(%s, %s))" % (GH, X1, X2, PX, PX, X1, X2)),
+            ("point-between-the-ends-y", "implies(%s, min(%s, %s) <= %s and %s <= max(%s, %s))" % (GH, Y1, Y2, PY, PY, Y1, Y2)),
+            ("cell-in-the-scanned-range", "implies(%s, xmin <= A0 and A0 <= xmax and ymin <= B0 and B0 <= ymax)" % GH),
+            ("cell-satisfies-the-crossing-test", "implies(%s, %s)" % (GH, COND))]
     reg.add(Spec(SI + "_SpatialIndex__cellsCrossSegment", dict(self="SpatialIndex", coord1="tuple[float,float]", coord2="tuple[float,float]"),
                  "list[tuple[int,int]]", ghost=dict(A0="int", B0="int", S0="real"),
-                 requires=WF + GRIDPT + ["0 <= S0 and S0 <= 1", "0 <= A0 and A0 < self.csize and 0 <= B0 and B0 < self.lsize", INCELL],
+                 requires=WF + GRIDPT,
                  locals=dict(CELLS="list[tuple[int,int]]"),
                  loops={"1": LoopSpec(inv=["implies(xmin <= A0 and A0 < i and ymin <= B0 and B0 <= ymax and %s, %s)" % (COND, MEM),
                                            "all(0 <= CELLS[q][0] and CELLS[q][0] < self.csize and 0 <= CELLS[q][1] and CELLS[q][1] < self.lsize for q in range(0, len(CELLS)))"]),
                         "1.1": LoopSpec(inv=["implies(xmin <= A0 and (A0 < i or (A0 == i and B0 < j)) and ymin <= B0 and B0 <= ymax and %s, %s)" % (COND, MEM),
                                              "all(0 <= CELLS[q][0] and CELLS[q][0] < self.csize and 0 <= CELLS[q][1] and CELLS[q][1] < self.lsize for q in range(0, len(CELLS)))"])},
                  hints=BETW,
-                 ensures=[("cell-containing-a-point-of-the-segment-is-returned", "any(result[q] == (A0, B0) for q in range(0, len(result)))"),
+                 ensures=[("cell-containing-a-point-of-the-segment-is-returned",
+                           "implies(%s, any(result[q] == (A0, B0) for q in range(0, len(result))))" % GH),
                           ("only-grid-cells", "all(0 <= result[q][0] and result[q][0] < self.csize and 0 <= result[q][1] and result[q][1] < self.lsize "
                            "for q in range(0, len(result)))")]))
 
 
+    # ---------------------------------------------------------------- registration and point query
+    reg.field("SpatialIndex", "inventaire", "set[tuple[int,int,int]]")
+    IN = lambda d, i, j: "any(self.grid[%s][%s][q_] == %s for q_ in range(0, len(self.grid[%s][%s])))" % (i, j, d, i, j)
+    GWF = ["len(self.grid) == self.csize", "all(len(self.grid[i_]) == self.lsize for i_ in range(0, self.csize))"]
+    INVENT = ("all(implies(0 <= i_ and i_ < self.csize and 0 <= j_ and j_ < self.lsize and (i_, j_, d_) in self.inventaire, %s) "
+              "for i_ in ints for j_ in ints for d_ in ints)" % IN("d_", "i_", "j_"))
+    GROWS = ("all(implies(0 <= i_ and i_ < self.csize and 0 <= j_ and j_ < self.lsize and old(%s), %s) "
+             "for i_ in ints for j_ in ints for d_ in ints)" % (IN("d_", "i_", "j_"), IN("d_", "i_", "j_")))
+    # cells only grow, stated without an existential: every cell keeps its old content as a prefix
+    GROWS = ("all(len(self.grid[i_][j_]) >= old(len(self.grid[i_][j_])) and all(self.grid[i_][j_][q_] == old(self.grid[i_][j_][q_]) "
+             "for q_ in range(0, old(len(self.grid[i_][j_])))) for i_ in range(0, self.csize) for j_ in range(0, self.lsize))")
+    OTHERS = "unchanged_except('SpatialIndex.grid', self) and unchanged_except('SpatialIndex.inventaire', self)"
+    reg.add(Spec(SI + "_SpatialIndex__addSegment", dict(self="SpatialIndex", coord1="tuple[float,float]", coord2="tuple[float,float]", data="int"),
+                 "none", ghost=dict(A0="int", B0="int", S0="real"),
+                 requires=WF + GRIDPT + GWF + [INVENT],
+                 modifies=["SpatialIndex.grid", "SpatialIndex.inventaire"],
+                 locals=dict(G0="list[list[list[int]]]", V0="set[tuple[int,int,int]]"),
+                 at={"i = cell[0]": ["ghost G0 = self.grid", "ghost V0 = self.inventaire"],
+                     "self.inventaire.add((i, j, data))": [
+                         ("other-cells-as-before", "all(implies(i_ != i or j_ != j, same(self.grid[i_][j_], G0[i_][j_])) "
+                          "for i_ in range(0, self.csize) for j_ in range(0, self.lsize))"),
+                         ("this-cell-extended", "len(self.grid[i][j]) == len(G0[i][j]) + 1 and self.grid[i][j][len(G0[i][j])] == data and "
+                          "all(self.grid[i][j][q_] == G0[i][j][q_] for q_ in range(0, len(G0[i][j])))"),
+                         ("shape-kept", " and ".join(GWF)),
+                         ("inventory-extended", "all(((i_, j_, d_) in self.inventaire) == (((i_, j_, d_) in V0) or (i_ == i and j_ == j and d_ == data)) "
+                          "for i_ in ints for j_ in ints for d_ in ints)")]},
+                 loops={"1": LoopSpec(inv=GWF + [INVENT, GROWS, OTHERS,
+                                                 "implies(any(CELLS[q] == (A0, B0) for q in range(0, _k)), %s)" % IN("data", "A0", "B0")],
+                                      hints=[("cells-keep-their-prefix",
+                                              "all(len(self.grid[i_][j_]) >= len(G0[i_][j_]) and all(self.grid[i_][j_][q_] == G0[i_][j_][q_] "
+                                              "for q_ in range(0, len(G0[i_][j_]))) for i_ in range(0, self.csize) for j_ in range(0, self.lsize))"),
+                                             ("new-inventory-entries-are-registered",
+                                              "all(implies((i_, j_, d_) in self.inventaire and not ((i_, j_, d_) in V0), i_ == i and j_ == j and d_ == data) "
+                                              "for i_ in ints for j_ in ints for d_ in ints)"),
+                                             ("current-cell-in-grid", "0 <= i and i < self.csize and 0 <= j and j < self.lsize"),
+                                             ("inventoried-means-registered", "implies((i, j, data) in V0, any(G0[i][j][q_] == data for q_ in range(0, len(G0[i][j]))))"),
+                                             ("already-registered-stays", "implies(any(G0[i][j][q_] == data for q_ in range(0, len(G0[i][j]))), " + IN("data", "i", "j") + ")"),
+                                             ("appended-at-the-end", "implies(not any(G0[i][j][q_] == data for q_ in range(0, len(G0[i][j]))) and not ((i, j, data) in V0), "
+                                              "len(self.grid[i][j]) == len(G0[i][j]) + 1 and self.grid[i][j][len(G0[i][j])] == data)"),
+                                             ("else-appended", "implies(not any(G0[i][j][q_] == data for q_ in range(0, len(G0[i][j]))) and not ((i, j, data) in V0), " + IN("data", "i", "j") + ")"),
+                                             ("datum-is-in-the-current-cell", IN("data", "i", "j"))])},
+                 ensures=[("grid-shape", " and ".join(GWF)), ("inventory-consistent", INVENT), ("cells-only-grow", GROWS),
+                          ("registered-in-the-cell-of-every-point-of-the-segment", "implies(%s, %s)" % (GH, IN("data", "A0", "B0"))),
+                          ("other-indexes-untouched", OTHERS)]))
+
+    reg.add(Spec(SI + "request", dict(self="SpatialIndex", obj="int", j="int"), "list[int]",
+                 requires=GWF + ["0 <= obj and obj < self.csize and 0 <= j and j < self.lsize"],
+                 ensures=[("content-of-the-cell", "same(result, self.grid[obj][j])")]), variant=None)
+    CX = "min(math.floor((obj.E - self.xmin) / self.dX), self.csize - 1)"
+    CY = "min(math.floor((obj.N - self.ymin) / self.dY), self.lsize - 1)"
+    EXACT = ["self.xmax - self.xmin == self.csize * self.dX", "self.ymax - self.ymin == self.lsize * self.dY"]
+    reg.add(Spec(SI + "request", dict(self="SpatialIndex", obj="ENUCoords"), "list[int]",
+                 requires=WF + GWF + EXACT + ["not isnan(obj.E) and not isnan(obj.N)",
+                                              "self.xmin <= obj.E and obj.E <= self.xmax and self.ymin <= obj.N and obj.N <= self.ymax"],
+                 hints=["use mul_mono((obj.E - self.xmin) / self.dX, self.csize, self.dX)", "use mul_mono(self.csize, (obj.E - self.xmin) / self.dX, self.dX)",
+                        "use mul_mono((obj.N - self.ymin) / self.dY, self.lsize, self.dY)", "use mul_mono(self.lsize, (obj.N - self.ymin) / self.dY, self.dY)",
+                        "use div_cancel((obj.E - self.xmin) / self.dX, self.dX, obj.E - self.xmin, 1)",
+                        "use div_cancel((obj.N - self.ymin) / self.dY, self.dY, obj.N - self.ymin, 1)",
+                        "use mul_nonneg((obj.E - self.xmin) / self.dX, self.dX)", "use mul_nonneg((obj.N - self.ymin) / self.dY, self.dY)"],
+                 ensures=[("content-of-the-cell-containing-the-point", "same(result, self.grid[%s][%s])" % (CX, CY))]), variant="coord")
+
+
+    # addFeature: every point of every segment of the track gets the feature number registered in its cell.
+    # Ghost K0 (segment index), S0 (parameter), A0/B0 (the cell of that ground point) are arbitrary.
+    GXk = "((X(track, %s) - self.xmin) / self.dX)"
+    GYk = "((Y(track, %s) - self.ymin) / self.dY)"
+    PGX = "((X(track, K0) + S0 * (X(track, K0 + 1) - X(track, K0)) - self.xmin) / self.dX)"
+    PGY = "((Y(track, K0) + S0 * (Y(track, K0 + 1) - Y(track, K0)) - self.ymin) / self.dY)"
+    INCELL_G = ("((A0 <= %s and %s < A0 + 1) or (%s == self.csize and A0 == self.csize - 1)) and "
+                "((B0 <= %s and %s < B0 + 1) or (%s == self.lsize and B0 == self.lsize - 1))" % (PGX, PGX, PGX, PGY, PGY, PGY))
+    GHG = ("(0 <= K0 and K0 + 1 < npts(track) and 0 <= S0 and S0 <= 1 and 0 <= A0 and A0 < self.csize and 0 <= B0 and B0 < self.lsize and %s)" % INCELL_G)
+    INSIDE_ALL = ("all(not isnan(X(track, r)) and not isnan(Y(track, r)) and self.xmin <= X(track, r) and X(track, r) <= self.xmax and "
+                  "self.ymin <= Y(track, r) and Y(track, r) <= self.ymax for r in range(0, npts(track)))")
+    reg.add(Spec(SI + "addFeature", dict(self="SpatialIndex", track="Track", num="int"), "none",
+                 ghost=dict(K0="int", S0="real", A0="int", B0="int"),
+                 requires=WF + GWF + EXACT + [INVENT, INSIDE_ALL],
+                 modifies=["SpatialIndex.grid", "SpatialIndex.inventaire"],
+                 at={"p2 = self.__getCell(coord2)": [
+                         "use div_cancel(%s, self.dX, X(track, i - 1) - self.xmin, 1)" % (GXk % "i - 1"),
+                         "use div_cancel(%s, self.dX, X(track, i) - self.xmin, 1)" % (GXk % "i"),
+                         "use div_cancel(%s, self.dY, Y(track, i - 1) - self.ymin, 1)" % (GYk % "i - 1"),
+                         "use div_cancel(%s, self.dY, Y(track, i) - self.ymin, 1)" % (GYk % "i"),
+                         "use div_cancel(%s, self.dX, X(track, K0) + S0 * (X(track, K0 + 1) - X(track, K0)) - self.xmin, 1)" % PGX,
+                         "use div_cancel(%s, self.dY, Y(track, K0) + S0 * (Y(track, K0 + 1) - Y(track, K0)) - self.ymin, 1)" % PGY,
+                         ("first-end-in-grid-units", "p1 is not None and p1[0] * self.dX == X(track, i - 1) - self.xmin and p1[1] * self.dY == Y(track, i - 1) - self.ymin"),
+                         ("second-end-in-grid-units", "p2 is not None and p2[0] * self.dX == X(track, i) - self.xmin and p2[1] * self.dY == Y(track, i) - self.ymin"),
+                         "use distrib(p1[0] + S0 * (p2[0] - p1[0]), %s, self.dX)" % PGX,
+                         "use distrib(p1[1] + S0 * (p2[1] - p1[1]), %s, self.dY)" % PGY,
+                         ("same-point-in-grid-units-x", "implies(i - 1 == K0, (p1[0] + S0 * (p2[0] - p1[0])) * self.dX == %s * self.dX)" % PGX),
+                         ("same-point-in-grid-units-y", "implies(i - 1 == K0, (p1[1] + S0 * (p2[1] - p1[1])) * self.dY == %s * self.dY)" % PGY),
+                         "use mul_cancel(self.dX, p1[0] + S0 * (p2[0] - p1[0]), %s)" % PGX,
+                         "use mul_cancel(self.dY, p1[1] + S0 * (p2[1] - p1[1]), %s)" % PGY,
+                         ("affine-map-commutes-with-interpolation",
+                          "implies(i - 1 == K0, p1[0] + S0 * (p2[0] - p1[0]) == %s and p1[1] + S0 * (p2[1] - p1[1]) == %s)" % (PGX, PGY))]},
+                 loops={"1": LoopSpec(inv=GWF + [INVENT, GROWS, OTHERS,
+                                                 "(i == 0 and coord1 is None) or (i > 0 and coord1 is not None and coord1 == obs(track, i - 1).position)",
+                                                 "implies(%s and K0 + 1 < i, %s)" % (GHG, IN("num", "A0", "B0"))])},
+                 ensures=[("grid-shape", " and ".join(GWF)), ("inventory-consistent", INVENT), ("cells-only-grow", GROWS),
+                          ("registered-in-the-cell-of-every-point-of-every-segment", "implies(%s, %s)" % (GHG, IN("num", "A0", "B0"))),
+                          ("other-indexes-untouched", OTHERS)],
+                 ghost_calls={"_SpatialIndex__addSegment": {"A0": "A0", "B0": "B0", "S0": "S0"}}))
+
+
+    # ---------------------------------------------------------------- neighbourhood query (unit given)
+    NEAR = "(0 <= A0 and A0 < self.csize and 0 <= B0 and B0 < self.lsize and %s - unit <= A0 and A0 <= %s + unit and %s - unit <= B0 and B0 <= %s + unit)"
+    FALSE_LOOPS = {k: LoopSpec(inv=["False"]) for k in ("2", "2.1", "3", "3.1", "4", "4.1", "4.2", "4.2.1", "5", "5.1")}
+    loops_ij = dict(FALSE_LOOPS)
+    loops_ij["1"] = LoopSpec(inv=["implies(any(NC[q] == (A0, B0) for q in range(0, _k)) and %s, D0 in TAB)" % IN("D0", "A0", "B0")])
+    reg.add(Spec(SI + "neighborhood", dict(self="SpatialIndex", obj="int", j="int", unit="int"), "list[int]",
+                 ghost=dict(A0="int", B0="int", D0="int"),
+                 requires=WF + GWF + ["0 <= obj and obj < self.csize and 0 <= j and j < self.lsize", "unit >= 0"],
+                 locals=dict(TAB="set[int]"), loops=loops_ij,
+                 ensures=[("every-datum-of-every-cell-within-unit-cells",
+                           "implies(%s and %s, any(result[q] == D0 for q in range(0, len(result))))" % (NEAR % ("obj", "obj", "j", "j"), IN("D0", "A0", "B0")))]))
+    reg.add(Spec(SI + "neighborhood", dict(self="SpatialIndex", obj="ENUCoords", unit="int"), "list[int]",
+                 ghost=dict(A0="int", B0="int", D0="int"),
+                 requires=WF + GWF + EXACT + ["not isnan(obj.E) and not isnan(obj.N)", "unit >= 0",
+                                              "self.xmin <= obj.E and obj.E <= self.xmax and self.ymin <= obj.N and obj.N <= self.ymax"],
+                 fresh=["ENUCoords"], loops=dict(FALSE_LOOPS, **{"1": LoopSpec(inv=["False"])}),
+                 hints=["use mul_mono((obj.E - self.xmin) / self.dX, self.csize, self.dX)", "use mul_mono(self.csize, (obj.E - self.xmin) / self.dX, self.dX)",
+                        "use mul_mono((obj.N - self.ymin) / self.dY, self.lsize, self.dY)", "use mul_mono(self.lsize, (obj.N - self.ymin) / self.dY, self.dY)",
+                        "use div_cancel((obj.E - self.xmin) / self.dX, self.dX, obj.E - self.xmin, 1)",
+                        "use div_cancel((obj.N - self.ymin) / self.dY, self.dY, obj.N - self.ymin, 1)",
+                        "use mul_nonneg((obj.E - self.xmin) / self.dX, self.dX)", "use mul_nonneg((obj.N - self.ymin) / self.dY, self.dY)"],
+                 ensures=[("every-datum-of-every-cell-within-unit-cells-of-the-query-cell",
+                           "implies(%s and %s, any(result[q] == D0 for q in range(0, len(result))))" % (NEAR % (CX, CX, CY, CY), IN("D0", "A0", "B0")))]),
+            variant="coord")
+
+
+def lemmas(reg):
+    """ground-distance-to-cells: if a point q is within ground distance d of p and u cells cover d along both axes
+    (u*dX > d, u*dY > d: groundDistanceToUnits), then the cell of q is within u cells of the cell of p."""
+    px, py, qx, qy, d, dX, dY, xmin, ymin = z3.Reals("px qx0 qx qy d dX dY xmin ymin")
+    u, cs, ls = z3.Ints("u cs ls")
+    fl = lambda e, name: z3.Int(name)
+    fpx, fqx, fpy, fqy = z3.Ints("fpx fqx fpy fqy")
+    gx = lambda x: (x - xmin) / dX
+    gy = lambda y: (y - ymin) / dY
+    hyps = [dX > 0, dY > 0, d >= 0, u * dX > d, u * dY > d, cs >= 1, ls >= 1,
+            (qx - px) * (qx - px) + (qy - py) * (qy - py) <= d * d,
+            fpx <= gx(px), gx(px) < fpx + 1, fqx <= gx(qx), gx(qx) < fqx + 1,
+            fpy <= gy(py), gy(py) < fpy + 1, fqy <= gy(qy), gy(qy) < fqy + 1]
+    cell = lambda f, n: z3.If(f < n - 1, f, n - 1)
+    return [("ground-distance-to-cells:x", hyps, z3.And(cell(fpx, cs) - u <= cell(fqx, cs), cell(fqx, cs) <= cell(fpx, cs) + u)),
+            ("ground-distance-to-cells:y", hyps, z3.And(cell(fpy, ls) - u <= cell(fqy, ls), cell(fqy, ls) <= cell(fpy, ls) + u))]
+
+
 USES_LIB = True
-FUNCTIONS = [G + "isSegmentIntersects", SI + "_SpatialIndex__cellsCrossSegment", SI + "groundDistanceToUnits", SI + "_SpatialIndex__getCell", SI + "_SpatialIndex__neighboringcells"]
+FUNCTIONS = [G + "isSegmentIntersects", SI + "_SpatialIndex__cellsCrossSegment", SI + "neighborhood", SI + "neighborhood@coord", SI + "_SpatialIndex__addSegment", SI + "request", SI + "request@coord",
+             SI + "addFeature", SI + "groundDistanceToUnits", SI + "_SpatialIndex__getCell", SI + "_SpatialIndex__neighboringcells"]
 ASSUMPTIONS = ["grid geometry: dX, dY > 0, at least one cell per axis, positive extent",
                "positions are ENUCoords with non-NaN coordinates"]
